@@ -144,6 +144,7 @@ func (sc *Scheduler) Schedule(ctx context.Context, g *ExecutionGraph, done chan 
 			}
 			wg.Add(1)
 
+			verifhook.Point("dagsched.beforeLaunch", node)
 			sc.logger.Info("Step execution started", "step", node.data.Step.Name)
 			node.setStatus(NodeStatusRunning)
 			verifhook.Point("dagsched.launch", node)
